@@ -314,6 +314,13 @@ func (c *cond) eval(types []string, r *row) bool {
 	}
 }
 
+func (c *cond) hasIntegralFloatLiteral(types []string) bool {
+	if c.op == "and" || c.op == "or" {
+		return c.args[0].hasIntegralFloatLiteral(types) || c.args[1].hasIntegralFloatLiteral(types)
+	}
+	return types[c.col] == "float" && c.v.f == float64(int64(c.v.f))
+}
+
 type Failure struct {
 	Mst      string  `json:"mst"`
 	DDL      string  `json:"ddl"`
@@ -326,6 +333,9 @@ type Failure struct {
 	NBrute   int     `json:"nbrute"`
 	Err      string  `json:"err,omitempty"`
 	MissRows []string `json:"missrows,omitempty"`
+	// LitMix: the condition compares a float key field with a literal of integral value (the store receives it as an integer
+	// literal: finding C20-literal-type-mismatch)
+	LitMix bool `json:"litmix,omitempty"`
 }
 
 type Out struct {
@@ -573,8 +583,18 @@ func main() {
 			if len(ic) > 0 && len(ic) < nrows {
 				out.Nontriv++
 			}
-			miss, extra := diff(ic, ik), diff(ik, ic)
-			if len(miss) > 0 || len(extra) > 0 {
+			// the property: a row that SATISFIES the condition (brute force over the acknowledged rows) and that the full scan
+			// returns must be returned by the indexed query too. Rows the engine's row filter returns although they do not satisfy
+			// the condition, and extra rows of the indexed query, are a matter of the row filter, not of index pruning.
+			var miss []int64
+			for _, id := range diff(ic, ik) {
+				if c.eval(types, rows[id]) {
+					miss = append(miss, id)
+				}
+			}
+			extra := diff(ik, ic)
+			if len(miss) > 0 {
+				f.LitMix = c.hasIntegralFloatLiteral(types)
 				f.NKey, f.NTwin, f.NBrute = len(ik), len(ic), nb
 				f.Missing, f.Extra = miss[:min(10, len(miss))], extra[:min(10, len(extra))]
 				for _, id := range f.Missing[:min(3, len(f.Missing))] {
